@@ -362,6 +362,144 @@ def install():
         _wrap_setter(Wildcard, nm, lambda w, value, before, exc: _kill(w))
 
 
+# ------------------------------------------------------------------ Acl operations -> Trace_Acl (pairs: Given, op)
+
+def _acl_vm(acl):
+    try:
+        if acl.platform not in ("ios", "nxos"):
+            return None
+        vm = {0: 0, 15: 15, 16: 16, 9: 9}.get(int(acl.version.major))
+        from harness import aclhist
+        if vm is None or acl.group_by not in [""] + aclhist.PREFIXES:
+            return None
+        return vm
+    except Exception:  # noqa
+        return None
+
+
+def _wrap_acl_op(Acl, name, act, is_setter=False):
+    from harness import aclhist
+    if is_setter:
+        prop = getattr(Acl, name)
+        orig = prop.fset
+    else:
+        orig = getattr(Acl, name)
+
+    def call(self, *args, **kw):
+        if _busy[0]:
+            return orig(self, *args, **kw)
+        _busy[0] += 1
+        try:
+            e, before, extra = None, None, {}
+            try:
+                vm = _acl_vm(self)
+                fields = _acl_args(act, args, kw) if vm is not None else None
+                if fields is not None:
+                    ver = str(self.version)
+                    before = aclhist.obs_acl(self, vm, ver)
+                    ace_lines = [x.line for x in aclhist.leaves_of(self) if type(x).__name__ == "Ace"]
+                    e = dict(aclhist.BASE, i=1, act=act, recorded=True, src="tests", **fields)
+                    e["lines_distinct"] = len(set(ace_lines)) == len(ace_lines)
+                    if act in ("ShadowOf", "DeleteShadow"):
+                        extra["shading_before"] = self.shading(fields["skip"] or None)
+                else:
+                    _skip()
+            except Exception:  # noqa
+                e = None
+            ret, exc = None, None
+            try:
+                ret = orig(self, *args, **kw)
+                return ret
+            except Exception as ex:
+                exc = ex
+                raise
+            finally:
+                if e is not None:
+                    try:
+                        _acl_finish(self, e, before, act, ret, exc, vm, ver, ace_lines, extra)
+                    except Exception:  # noqa
+                        _skip()
+        finally:
+            _busy[0] -= 1
+    if is_setter:
+        setattr(Acl, name, property(prop.fget, call, prop.fdel, prop.__doc__))
+    else:
+        setattr(Acl, name, call)
+
+
+def _is_int(x):
+    return isinstance(x, int) and not isinstance(x, bool)
+
+
+def _acl_args(act, args, kw):
+    """event fields of a call inside the model's vocabulary, else None"""
+    from harness import aclhist
+    if act == "Resequence":
+        if len(args) > 2 or not set(kw) <= {"start", "step"}:
+            return None
+        s = args[0] if args else kw.get("start", 10)
+        d = args[1] if len(args) > 1 else kw.get("step", 10)
+        if not (_is_int(s) and _is_int(d) and 0 <= s < 2 ** 32 and 0 <= d < 2 ** 32):
+            return None
+        return dict(s=lex.limbs(s), d=lex.limbs(d))
+    if act == "Group":
+        g = args[0] if args else kw.get("group_by")
+        return dict(prefix=g) if g in aclhist.PREFIXES and len(args) + len(kw) == 1 else None
+    if act in ("Shading", "ShadowOf", "DeleteShadow"):
+        sk = args[0] if args else kw.get("skip")
+        if len(args) + len(kw) > 1 or not (sk is None or (isinstance(sk, list) and set(sk) <= {"addrgroup", "nc_wildcard"})):
+            return None
+        return dict(skip=list(sk or []))
+    if act == "SetPlatform":
+        return dict(plat=args[0]) if len(args) == 1 and args[0] in ("ios", "nxos") else None
+    if act in ("SetPortNr", "SetProtocolNr"):
+        return dict(flag=args[0]) if len(args) == 1 and isinstance(args[0], bool) else None
+    if act == "SetType":
+        return dict(typ=args[0]) if len(args) == 1 and args[0] in ("standard", "extended") else None
+    return dict() if not args and not kw else None       # Ungroup, Sort, UngroupPorts, TcamCount, DeleteNote, Copy
+
+
+def _acl_finish(acl, e, before, act, ret, exc, vm, ver, ace_lines, extra):
+    from harness import aclhist
+    e["exc"] = core.exc_name(exc) if exc is not None else ""
+    if exc is None:
+        if act == "Resequence":
+            e["ret_num"] = lex.limbs(int(ret))
+        elif act == "TcamCount":
+            e["ret_int"] = int(ret)
+        elif act == "Shading":
+            e["pairs"] = aclhist.report_pairs(ret, ace_lines)
+        elif act == "ShadowOf":
+            rep0 = extra["shading_before"]
+            e["pairs"] = aclhist.report_pairs(rep0, ace_lines)
+            e["same_as_shading_before"] = ret == [s for ls in rep0.values() for s in ls]
+        elif act == "DeleteShadow":
+            e["pairs"] = aclhist.report_pairs(ret, ace_lines)
+            e["same_as_shading_before"] = ret == extra["shading_before"]
+    e["obs"] = aclhist.obs_acl(acl, vm, ver)
+    e["twin"] = e["obs"]
+    if act == "Copy" and exc is None:
+        e["twin"] = aclhist.obs_acl(ret, vm, ver)
+        e["twin_text_equal"] = ret.line == acl.line
+        e["twin_data_equal"] = proj.digest(ret) == proj.digest(acl)
+        e["shared_mutables"] = len(aclhist.mutable_ids(acl) & aclhist.mutable_ids(ret))
+    e["before"] = before
+    given = dict(aclhist.BASE, i=0, act="Given", recorded=True, src="tests", obs=before, twin=before, before=before)
+    key = ("acl", _seq[0] + 1)
+    _emit("Trace_Acl", key, given)
+    _emit("Trace_Acl", key, e)
+
+
+def install_acl():
+    from cisco_acl import Acl
+    for name, act in (("resequence", "Resequence"), ("group", "Group"), ("ungroup", "Ungroup"), ("sort", "Sort"), ("ungroup_ports", "UngroupPorts"),
+                      ("tcam_count", "TcamCount"), ("delete_note", "DeleteNote"), ("shading", "Shading"), ("shadow_of", "ShadowOf"),
+                      ("delete_shadow", "DeleteShadow"), ("copy", "Copy")):
+        _wrap_acl_op(Acl, name, act)
+    for name, act in (("platform", "SetPlatform"), ("port_nr", "SetPortNr"), ("protocol_nr", "SetProtocolNr"), ("type", "SetType")):
+        _wrap_acl_op(Acl, name, act, is_setter=True)
+
+
 def dump():
     if not OUT:
         return
@@ -388,6 +526,7 @@ def dump():
 def pytest_configure(config):
     if OUT:
         install()
+        install_acl()
 
 
 def pytest_unconfigure(config):
